@@ -238,7 +238,9 @@ def to_model(case):
                 prog[k] = v
         else:
             prog[k] = v
-    return [mk_case(case.split()[0], c["route"], c["ctor"], c["nb"], c["na"], keep_us,
+    # a pattern route (with converters, or a raw regular expression without) dispatches like a static one
+    route = "hit" if c["route"] in ("rx", "raw") else c["route"]
+    return [mk_case(case.split()[0], route, c["ctor"], c["nb"], c["na"], keep_us,
                     [c["eh"][i] for i in keep_eh], c["digest"], prog)]
 
 
@@ -273,7 +275,7 @@ def get_app(c):
         after.__name__ = "after%d" % j
         return after
 
-    def endpoint(req):
+    def endpoint(req, *args):
         req.environ["verif.trace"].append("e")
         return act(req.environ["verif.prog"].get("e", "ret~N"))
 
@@ -283,6 +285,8 @@ def get_app(c):
         app.add_after_response(mk_after(j))
     app.set_route("/hit", endpoint, state.METHOD_ALL)
     app.set_route("/only-post", endpoint, state.METHOD_POST)
+    app.set_route("/rx/<n:int>", endpoint, state.METHOD_ALL)
+    app.set_regular_route(r"/raw/(\w+)", endpoint, state.METHOD_ALL)
     if c["route"] == "default":
         app.set_default(endpoint, state.METHOD_ALL)
 
@@ -310,7 +314,7 @@ def get_app(c):
 
 
 PATHS = {"hit": "/hit", "wrong": "/only-post", "file": "/f", "dir": "/d/", "forb": "/d/", "dbg": "/debug-info",
-         "default": "/nothing", "nf": "/nothing"}
+         "default": "/nothing", "nf": "/nothing", "rx": "/rx/12", "raw": "/raw/ab"}
 PAGE_RE = re.compile(r"<title>(\d\d\d) - ")
 
 
@@ -542,7 +546,8 @@ def mk_case(prop, route, ctor, nb, na, us, eh, digest, prog, meth=None, ehm=None
     return line
 
 
-ROUTES = ["hit", "wrong", "file", "dir", "forb", "dbg", "default", "nf"]
+ROUTES = ["hit", "wrong", "file", "dir", "forb", "dbg", "default", "nf", "rx", "raw"]
+ENDPOINT_ROUTES = ("hit", "default", "rx", "raw")
 
 
 def rand_case(prop, rng, fail=0.4):
